@@ -38,7 +38,7 @@ class C05(ObjCheck):
             "in, every object reads back exactly as recorded. Non-trivial = a write followed by a restart followed by a read of "
             "a non-default attribute kind.")
     assumptions = ["fixtures were generated once by the pinned tree 4957998 (tools/mkfixtures.py) and are verified by SHA-256 before use",
-                   "the independent decoder covers the file backend; the SQLite backend is judged through the API round trip and the fixtures"]
+                   "both backends are decoded independently (file: format description; SQLite: sqlite3 + the serialisation rules of attribute maps and mechanism sets)"]
     essential_labels = {"restarts": 300, "directories_decoded": 300, "persistence_views_checked": 600}
 
     def setup(self, ctx):
